@@ -19,7 +19,11 @@ Functions under contract (real source, re-read on every run):
                           (len, self[by], items(), constructor) is assumed (C01)
 Structural induction on the nesting depth D: the laws are assumed for all values of depth < D (instances for the elements
 at the witness indices of cmparr's contract) and proved for depth <= D; the base case (scalars) needs no hypothesis.
-as_primitive is taken as the identity on this universe (assumed; its numpy / date normalisation is bounded-checked).
+pyg_base._as_primitive:as_primitive / _as_primitive   whole bodies on the universe (is_bool / is_int / is_float / is_date / is_str inlined, the loop(list,
+                          tuple) decorator by the contract of loops._wrapped from C19, dt(datetime) by C04): a scalar comes back as the very same
+                          object, a tuple / list as a new container of the same class and length with - by induction - the very same leaves.  cmp's
+                          contract keeps the original handle of a container (model note in the trusted base); numpy / date / Enum normalisation
+                          is bounded-checked only.
 sort's quantifier (lists of scalars None / int / finite float / NaN / str / datetime, or of equal-length tuples of them - no
 bools, no infinities) is generalised to lists of pairwise *shape-compatible* values (COMPAT), which is what dictable.sort
 hands to sort: ((key, ...), row number) pairs.
@@ -48,8 +52,11 @@ D = Int('D')                                               # induction measure: 
 def as_primitive_contract(ex, st, args, kwargs):
     if len(args) != 1 or args[0].kind != 'litlist':
         raise OutOfSubset('as_primitive of %s' % [a.kind for a in args])
-    ex.use('assumed contract:as_primitive is the identity on None, bool, int, float, str, datetime and tuples / lists of them '
-           '(its numpy / date / Enum normalisation is bounded-checked)')
+    ex.use('callee contract:as_primitive returns the very object it is given for None, bool, int, float, str and tz-naive datetime (body verified in '
+           'as_primitive.scalar.*); for a tuple / list it returns a new container of the same class and length holding - recursively - the very same '
+           'leaf objects (as_primitive.container.*, by the loops._wrapped contract of C19); numpy / date / Enum normalisation is bounded-checked only')
+    ex.use('model:cmp continues with the structural copy as_primitive makes of a tuple / list argument; the contract keeps the original handle, i.e. it relies on '
+           'cmp reading a container only through type(), len() and its elements (which are the same objects)')
     return T(args[0].f['items'])
 
 
@@ -516,6 +523,102 @@ def elem_IH(wits_list, tops):
     return out
 
 
+# ------------------------------------------------------------------------------------------------ as_primitive (what cmp normalises its arguments with)
+AP = Function('AS_PRIMITIVE', IntSort(), IntSort())                 # the object the decorated _as_primitive returns for an object
+SAMELEAVES = Function('SAME_LEAVES', IntSort(), IntSort(), BoolSort())   # spec: r is h itself (scalar) or a container of h's class and length whose elements are SAME_LEAVES
+BODY = '_as_primitive.body'
+
+
+def sameleaves_unf(r, h, j):
+    return If(is_scalar(h), r == h, And(tag(r) == tag(h), ln(r) == ln(h), Implies(And(0 <= j, j < ln(h)), SAMELEAVES(at(r, j), at(h, j)))))
+
+
+def looped_contract(box):
+    """the object `_as_primitive` names is loop(list, tuple)(body): by the contract of loops._wrapped (C19 _wrapped.leaf.* / _wrapped.list.*) a value that is
+    not a list / tuple is handed to the body, a list / tuple gives a new container of the same class and length whose j-th element is the result on x[j]"""
+    def contract(ex, st, args, kwargs):
+        if len(args) != 1 or kwargs or args[0].kind != 'val':
+            raise OutOfSubset('_as_primitive(%s)' % [a.kind for a in args])
+        if not box.get('decorated'):
+            raise SelectorError('_as_primitive is no longer decorated with loop(list, tuple)')
+        v = args[0].t
+        ex.use('callee contract:loop(list, tuple)(f)(x) is f(x) for x not a list / tuple; for a list / tuple it is a new container of the same class and length '
+               'whose j-th element is the result on x[j] (wrapper.__call__ forwards to wrapped: C18 wrapper.__call__.*; loops.wrapped hands a single positional '
+               'argument on to loops._wrapped(x, (), {}): C19 wrapped.positional.*; loops._wrapped: C19 _wrapped.leaf.* / _wrapped.list.*)')
+        R = fresh_int('as_primitive')
+        leaf = Not(is_seq(v))
+        sub = st.fork(); sub.pc = st.pc + list(st.guards) + [leaf]; sub.guards = []; sub.pending = []
+        base = len(sub.pc)
+        if ex.feasible(sub):
+            for o in ex.run_function(sub, BODY, [V(v)], {}):
+                cond = And(*o.st.pc[base:]) if len(o.st.pc) > base else BoolVal(True)
+                if o.kind == 'raise':
+                    ex.raise_if(st, And(leaf, cond), o.val)
+                else:
+                    st.assume(Implies(And(leaf, cond), R == tv.to_handle(o.val)))
+        j = Int('j!ap')
+        st.assume(Implies(is_seq(v), And(tag(R) == tag(v), ln(R) == ln(v),
+                                         ForAll([j], Implies(And(0 <= j, j < ln(v)), at(R, j) == AP(at(v, j))), patterns=[at(R, j)]))))
+        return V(R)
+    return contract
+
+
+def dt_contract(ex, st, args, kwargs):
+    if len(args) != 1 or kwargs or args[0].kind != 'val':
+        raise OutOfSubset('dt(%s)' % [a.kind for a in args])
+    ex.oblige(st, 'call.dt.pre.a_tz_naive_datetime', tag(args[0].t) == DT_T, kind='pre')
+    ex.use('callee contract:dt(t) returns a tz-naive datetime t itself (no bump arguments: reduce(dt_bump, [], t) is t; C04 dt.datetime.returned_unchanged)')
+    return args[0]
+
+
+def as_primitive_section(ctx):
+    mp, mt = ctx.mod('_as_primitive'), ctx.mod('_types')
+    f_pub, f_body = mp.func('as_primitive'), mp.func('_as_primitive')
+    decs = [ast.unparse(d_) for d_ in f_body.decorator_list]
+    box = dict(decorated=(decs == ['loop(list, tuple)']))
+    ctx.post('as_primitive.decorator_is_loop_list_tuple', [], BoolVal(box['decorated']), kind='post')
+    inline = {'as_primitive': (mp, f_pub), BODY: (mp, f_body)}
+    for nm in ('is_bool', 'is_int', 'is_float', 'is_date', 'is_str'):
+        inline[nm] = (mt, mt.func(nm))
+    h, J = Ints('h J')
+    ex = Exec(mp, [Vals({'_as_primitive': looped_contract(box), 'dt': dt_contract})], inline=inline, name='as_primitive')
+    st = State(); st.pc += pre(h)
+    hy0 = list(st.pc); base = len(st.pc)
+    outs = ex.run_function(st, 'as_primitive', [V(h)], {})
+    ctx.absorb(ex)
+    ctx.record_function(mp, 'as_primitive', f_pub, ex.stmts_executed)
+    ctx.record_function(mp, '_as_primitive', f_body, ex.stmts_executed,
+                        excluded=['Enum members (value.value), numpy scalars, datetime.date / np.datetime64 (normalised through dt): outside the deductive universe, bounded stand-in only'])
+    for nm in ('is_bool', 'is_int', 'is_float', 'is_date', 'is_str'):
+        ctx.record_function(mt, nm, inline[nm][1], ex.stmts_executed, how='inlined into _as_primitive')
+    wh = dict(D=D, J=J); wh.update(tv.witness_fields('x', h))
+    for k in range(3):
+        wh.update(tv.witness_fields('x%d' % k, at(h, k)))
+    kw = dict(witness=wh, replay=rp('as_primitive'))
+    bad, nret = [], 0
+    for out in outs:
+        if out.kind != 'return':
+            bad.append(suffix(out.st, base)); continue
+        nret += 1
+        if out.val.kind != 'val':
+            raise OutOfSubset('as_primitive returns a %s' % out.val.kind)
+        R = out.val.t
+        hy = ex.facts + out.st.pc
+        ctx.post('as_primitive.scalar.returns_the_very_object', hy + [is_scalar(h)], R == h, **kw)
+        for nm, tg in (('None', NONE_T), ('bool', BOOL_T), ('int', INT_T), ('float', FLOAT_T), ('str', STR_T), ('datetime', DT_T)):
+            ctx.cover('as_primitive.scalar.reachable.' + nm, hy + [tag(h) == tg])
+        # containers: structural induction on the nesting depth - the elements' results have the same leaves (hypothesis, instance at J)
+        ih = Implies(And(0 <= J, J < ln(h)), SAMELEAVES(AP(at(h, J)), at(h, J)))
+        ctx.post('as_primitive.container.same_class_and_length', hy + [is_seq(h)], And(tag(R) == tag(h), ln(R) == ln(h)), **kw)
+        ctx.post('as_primitive.container.elements_have_the_same_leaves', hy + [is_seq(h), ih], sameleaves_unf(R, h, J), **kw)
+        ctx.cover('as_primitive.container.reachable', hy + [tag(h) == TUPLE_T, ln(h) == 2, tag(at(h, 0)) == LIST_T])
+    ctx.post('as_primitive.never_raises', ex.facts + hy0, Not(Or(*bad)) if bad else BoolVal(True), kind='safety', **kw)
+    if not nret:
+        raise OutOfSubset('as_primitive has no returning path')
+    ctx.trust('spec:SAME_LEAVES(r, h) is defined by structural recursion - r is h for a scalar, else a container of the class and length of h whose elements are '
+              'SAME_LEAVES - and AS_PRIMITIVE(e) names the result on an element e; as_primitive.container.* is the induction step (hypothesis at the witness index)')
+
+
 # ------------------------------------------------------------------------------------------------ build
 def build(ctx):
     mach = machinery(ctx)
@@ -582,6 +685,7 @@ def build(ctx):
             raise OutOfSubset('cmparr has no returning path')
         ctx.cover('cmparr.pre_satisfiable', hy0 + [ln(a) == 2, ln(b) == 2, tag(a) == TUPLE_T])
     ctx.guarded('cmparr', cmparr_section)
+    ctx.guarded('as_primitive', lambda: as_primitive_section(ctx))
 
     # ------------------------------------------------------------------ cmp: summary, safety, laws (induction step; base = scalars)
     def cmp_section():
